@@ -607,11 +607,12 @@ async fn run_case(addr: SocketAddr, certs: &Certs, t: &[&str]) -> anyhow::Result
             let mut gs = raw_stream(&ghost).await?;
             gs.send(reg_frame("RS", &ns, &tp)).await?;
             let a = answer(&mut gs).await;
-            let healthy = crate::e2e::client(saddr, certs, BackoffStrategy::constant().with_max_attempts(0)).await?;
+            // (the healthy peers ping four times per idle limit: what the server gives up is the peer that went silent)
+            let healthy = crate::e2e::client_pinging(saddr, certs, BackoffStrategy::constant().with_max_attempts(0), (ms / 4) as u64).await?;
             let mut sub = healthy.subscriber(&format!("/{ns}/{tp}")).with_decoder(StringCodec).open().await?;
             tokio::time::sleep(Duration::from_millis(80)).await;
             cut.abort();
-            let other = crate::e2e::client(saddr, certs, BackoffStrategy::constant().with_max_attempts(0)).await?;
+            let other = crate::e2e::client_pinging(saddr, certs, BackoffStrategy::constant().with_max_attempts(0), (ms / 4) as u64).await?;
             let mut publ = other.publisher(&format!("/{ns}/{tp}")).with_encoder(StringCodec).open().await?;
             let total = 48usize;
             let sender = tokio::spawn(async move { let chunk = "y".repeat(64 * 1024); for _ in 0..total { if publ.send(chunk.clone()).await.is_err() { break; } } let _ = publ.finish().await; });
@@ -827,7 +828,7 @@ pub fn run_named(cfg: &Cfg, name: &str) {
         cases.push("reg pipeline RP".into());
         cases.push("reg pipeline RQ".into());
         cases.push("reg lazy 9".into());
-        cases.push("reg ghost 1500".into());
+        cases.push("reg ghost 4000".into());
         cases.push("reg stall 130".into());
         // (thorough tier, and whenever a proof obligation of the property no longer checks)
         if cfg.tier == Tier::Thorough || searching() { cases.push("reg stallslow 36".into()); }
